@@ -73,7 +73,7 @@ var tabFF = [][2]float64{{0, 0}, {1, 1}, {0, 1}, {1, 0}, {1.5, 0.5}, {0.5, 1.5},
 var tabU = []uint8{0, 1, 4, 250, 255, 100, 3}
 var tabB = []uint64{0, 1, 5, 1 << 63, 1<<64 - 1, 1<<64 - 2, 1<<63 + 5}
 var tabN = []int{0, 1, 3, -1, 7, 2}
-func slices() [][]int { return [][]int{nil, {1}, {3, 1, 2}, {0, 1, 2, 3, 4, 5, 6, 7}, {5, 5, 5, 5}, {2, 0}} }
+func slices() [][]int { return [][]int{nil, {1}, {3, 1, 2}, {0, 1, 2, 3, 4, 5, 6, 7}, {5, 5, 5, 5}, {2, 0}, {4, -2, 6, -1, 3}, {-5}} }
 func maps() []map[string]int { return []map[string]int{{}, {"a": 1}, {"k": 2, "a": 3, "ab": -1}, {"0": 9, "1": 8}} }
 `
 
